@@ -18,7 +18,8 @@ MANIFEST = dict(
          "timer fires every 60 s (C18), are pipeline/timer facts; C07_cache_bound takes the insertion window w and the "
          "purge gap p as premises.  Trusted: Coq kernel+vm_compute, gen_facts probe, extraction, harness/driver glue.",
     technique="Coq proof (history induction with clock monotonicity, ghost log for the retention bound) + facts translator "
-              "+ differential correspondence under a virtual clock")
+              "+ differential correspondence under a virtual clock + clock.c translated from source (C text -> Gallina, "
+              "Properties_C18_clock.v) and run on second-boundary readings")
 
 PROP = "C07"
 
